@@ -14,17 +14,29 @@ open Sia.Codec
 length-prefixed; `DecodeFrom`: prefix ≤ 16, leading zeros accepted). -/
 def v1Currency : Sch := .cur1
 
-/-- rhp/v2 `RPCReadResponse`: `copy(r.Signature[:], d.ReadBytes())`, then
-`dataLen := int(d.ReadUint64()); r.Data = make([]byte, dataLen)[:dataLen]; d.Read(r.Data)`
-— no guard on `dataLen` — then `DecodeSlice(d, &r.MerkleProof)`. -/
+/-- rhp/v2 `RPCReadResponse` (after fix 3d18561): `copy(r.Signature[:], d.ReadBytes())`,
+then `r.Data = readN(d, r.Data, d.ReadUint64())` — the announced length is not checked
+against the reader's allowance, but `readN` only grows the buffer by what really arrives
+(atom `cbytes`) — then `DecodeSlice(d, &r.MerkleProof)`. -/
 def rhp2ReadResponse : Sch :=
+  Sch.seq [("Signature", .pfixed 64), ("Data", .cbytes), ("MerkleProof", .slice (.fixed 32))]
+
+/-- the same decoder BEFORE the fix: `dataLen := int(d.ReadUint64()); make([]byte, dataLen)`
+(kept for the record: `c10_rhp2_readresponse_old_panics`) -/
+def rhp2ReadResponseOld : Sch :=
   Sch.seq [("Signature", .pfixed 64), ("Data", .ubytes), ("MerkleProof", .slice (.fixed 32))]
 
-/-- rhp/v3 `RPCExecuteProgramRequest`: contract id, then
-`r.Program = make([]Instruction, d.ReadUint64())` — no guard — each instruction being a
-specifier, an argument length and the instruction's own codec (not modelled: `ext`),
-then the length-prefixed program data. -/
+/-- rhp/v3 `RPCExecuteProgramRequest` (after fix 1d18dfd): contract id, then
+`n := d.ReadUint64(); for i < n { …; r.Program = append(r.Program, instr) }` — no guard on
+`n`, but the slice grows only by instructions really decoded (`aslice`); each
+instruction is a specifier, an argument length and the instruction's own codec (not
+modelled: `ext`); then the length-prefixed program data. -/
 def rhp3ExecuteProgramRequest : Sch :=
+  Sch.seq [("FileContractID", .fixed 32), ("Program", .aslice (.ext "Rhp3.Instruction")),
+    ("ProgramData", .bytes)]
+
+/-- the same decoder BEFORE the fix: `r.Program = make([]Instruction, d.ReadUint64())` -/
+def rhp3ExecuteProgramRequestOld : Sch :=
   Sch.seq [("FileContractID", .fixed 32), ("Program", .uslice (.ext "Rhp3.Instruction")),
     ("ProgramData", .bytes)]
 
